@@ -32,6 +32,11 @@ Arith(e) ==
     /\ \A i \in DOMAIN e.diff : All(e.diff[i].abs_diff, AbsDiff(e.v, e.diff[i].b))
 Abs(x) == IF x < 0 THEN -x ELSE x
 CeilDiv(a, b) == (a + b - 1) \div b
+\* popcount of a byte buffer = sum of the bytes' popcounts, whatever the alignment of the buffer
+Pop8(b) == Cardinality({i \in 0 .. 7 : (b \div (2 ^ i)) % 2 = 1})
+RECURSIVE PopSum(_)
+PopSum(s) == IF s = <<>> THEN 0 ELSE Pop8(s[1]) + PopSum(Tail(s))
+PopBuf(e) == All(e.res, PopSum(e.bytes))
 Small(e) ==
     /\ e.sgn = (IF e.a < 0 THEN -1 ELSE IF e.a > 0 THEN 1 ELSE 0)
     /\ e.abs_diff = Abs(e.a - e.b)
@@ -45,6 +50,7 @@ Step ==
       [] Ev.e = "word" -> Word(Ev)
       [] Ev.e = "arith" -> Arith(Ev)
       [] Ev.e = "small" -> Small(Ev)
+      [] Ev.e = "popbuf" -> PopBuf(Ev)
       [] Ev.e = "agg" -> Agg(Ev)
       [] OTHER -> FALSE
 TInit == l = 1
